@@ -18,7 +18,7 @@ Configuration = (phase, closed, runner, pending-ops) where ``runner`` is the ``s
 current non-stopped phase and every pending op has a small local state:
 
     serve_forever   new -> run -> ret_none                          returns None   (only after a stop request or a close)
-                    new -> run -> fail_closed                       ServerClosedError (only if a server_close took effect)
+                    new -> run -> fail_closed | new -> fail_closed  ServerClosedError (only if a server_close took effect)
                     new -> fail_running                             ServerAlreadyRunning (only while another one is not stopped)
     shutdown        new -> (wait, r) -> done   |   new -> done      returns None only once the runner it stopped is gone
                                                                     ("timed_out" — threaded shutdown(timeout) — once the stop request is made)
@@ -112,6 +112,8 @@ def _decide(c: Config, idx: int, allow_busy: bool, true_in: Iterable[str] = _TRU
                 yield Config(STARTING, closed, opid, _set(ops, idx, "run"))
             else:
                 yield Config(phase, closed, runner, _set(ops, idx, "fail_running"))
+            if closed:  # refused up front, whatever the previous serve_forever is still doing (standalone servers check this first)
+                yield Config(phase, closed, runner, _set(ops, idx, "fail_closed"))
     elif kind == SHUTDOWN:
         if st == "new":
             if phase == STOPPED:
@@ -224,7 +226,7 @@ class LifecycleModel:
         for c in self.configs:
             n = Config(c.phase, c.closed, c.runner, c.ops + ((opid, kind, "new"),))
             if kind in self.atomic and kind in (SERVE, SHUTDOWN):
-                out.update(_decide(n, len(n.ops) - 1, self.allow_busy))  # exactly one successor each
+                out.update(_decide(n, len(n.ops) - 1, self.allow_busy, self.true_in, self.false_in))
             else:
                 out.add(n)
         self.configs = self._closure(out)
